@@ -481,3 +481,263 @@ func runIscp(c *vrun.Case, s scenario) vrun.Result {
 	r.Stat("request_ids_seen", int64(len(ids)))
 	return r
 }
+
+// TestC06AbandonedRequests: "a caller whose context ends stops waiting without consuming another caller's response" -
+// for every request kind: the broker withholds one request's response, the caller's context ends, the caller must return
+// (with its context's error) while the other callers get their own responses; the withheld response, sent late, is
+// ignored and the next request of the same kind gets its own.
+func TestC06AbandonedRequests(t *testing.T) {
+	e := vrun.LoadEnv()
+	kinds := []string{"uo", "ur", "uc", "um", "do", "dr", "dc"}
+	meta := vrun.Meta{Property: "C06", Workload: "TestC06AbandonedRequests", Total: e.Pick(56, 2800),
+		Rule:        "wire.Connect over memnet; for each of the 7 request kinds (round robin over the cases): the victim issues one request with a 20 ms context whose response the broker withholds, 1-6 other callers issue answered requests of all kinds meanwhile; after the victim has returned the broker sends the withheld response (late) and the victim issues the same kind of request again (answered). Oracle: the victim returns no later than 10 s after its context ended, with the context's error; every other caller and the victim's second request get the response bearing their own request id and tag. non-trivial = the withheld request reached the broker; distinct = (kind, encoding, other callers)",
+		Assumptions: []string{"10 s is a wall-clock watchdog far above the 20 ms context: a caller counted as stuck ignores its context"}}
+	vrun.Loop(t, meta, 0, func(c *vrun.Case) vrun.Result {
+		kind := kinds[c.Index%len(kinds)]
+		others := 1 + c.Rng.Intn(6)
+		enc := []string{"proto", "json"}[c.Rng.Intn(2)]
+		desc := map[string]any{"kind": kind, "other_callers": others, "encoding": enc}
+		var res vrun.Result
+		ok, dump := vrun.Watchdog(120*time.Second, func() { res = runAbandonedRequest(c, kind, others, enc) })
+		if !ok {
+			res = vrun.WatchdogVerdict("the case never finished")
+			if res.Verdict == vrun.Inconclusive {
+				res.Witness = map[string]any{"dump_head": dump[:min(len(dump), 5000)]}
+			}
+		}
+		res.Desc = desc
+		return res
+	})
+}
+
+// issueKind sends one request of the given kind; it returns the request id, the response id and the echoed tag.
+func issueKind(ctx context.Context, cc *wire.ClientConn, kind, tag string, alias uint32) (reqID, respID uint32, got string, err error) {
+	switch kind {
+	case "uo":
+		req := &message.UpstreamOpenRequest{SessionID: tag, QoS: message.QoSReliable}
+		resp, e := cc.SendUpstreamOpenRequest(ctx, req)
+		reqID, err = uint32(req.RequestID), e
+		if e == nil {
+			respID, got = uint32(resp.RequestID), resp.ResultString
+		}
+	case "ur":
+		req := &message.UpstreamResumeRequest{StreamID: tagUUID(tag)}
+		resp, e := cc.SendUpstreamResumeRequest(ctx, req, message.QoSReliable)
+		reqID, err = uint32(req.RequestID), e
+		if e == nil {
+			respID, got = uint32(resp.RequestID), resp.ResultString
+		}
+	case "uc":
+		req := &message.UpstreamCloseRequest{StreamID: tagUUID(tag)}
+		resp, e := cc.SendUpstreamCloseRequest(ctx, req)
+		reqID, err = uint32(req.RequestID), e
+		if e == nil {
+			respID, got = uint32(resp.RequestID), resp.ResultString
+		}
+	case "um":
+		req := &message.UpstreamMetadata{Metadata: &message.BaseTime{Name: tag, BaseTime: time.Unix(1, 0).UTC()}}
+		resp, e := cc.SendUpstreamMetadata(ctx, req)
+		reqID, err = uint32(req.RequestID), e
+		if e == nil {
+			respID, got = uint32(resp.RequestID), resp.ResultString
+		}
+	case "do":
+		req := &message.DownstreamOpenRequest{DesiredStreamIDAlias: alias, QoS: message.QoSReliable}
+		resp, e := cc.SendDownstreamOpenRequest(ctx, req)
+		reqID, err = uint32(req.RequestID), e
+		if e == nil {
+			respID, got = uint32(resp.RequestID), resp.ResultString
+		}
+	case "dr":
+		req := &message.DownstreamResumeRequest{StreamID: tagUUID(tag), DesiredStreamIDAlias: alias}
+		resp, e := cc.SendDownstreamResumeRequest(ctx, req)
+		reqID, err = uint32(req.RequestID), e
+		if e == nil {
+			respID, got = uint32(resp.RequestID), resp.ResultString
+		}
+	case "dc":
+		req := &message.DownstreamCloseRequest{StreamID: tagUUID(tag)}
+		resp, e := cc.SendDownstreamCloseRequest(ctx, req)
+		reqID, err = uint32(req.RequestID), e
+		if e == nil {
+			respID, got = uint32(resp.RequestID), resp.ResultString
+		}
+	}
+	return
+}
+
+func wantTag(kind, tag string, alias uint32) string {
+	switch kind {
+	case "uo", "um":
+		return kind + ":" + tag
+	case "do":
+		return fmt.Sprintf("do:%d", alias)
+	}
+	return kind + ":" + tagUUID(tag).String()
+}
+
+func runAbandonedRequest(c *vrun.Case, kind string, others int, enc string) vrun.Result {
+	w := world.New()
+	defer w.Close()
+	rs := &responder{r: rand.New(rand.NewSource(c.Rng.Int63())), s: scenario{Batch: 1, Order: "fifo"}, stop: make(chan struct{})}
+	install(w, rs)
+	answer := w.B.OnMsg
+	var mu sync.Mutex
+	var withheld message.Message
+	var withheldLC *broker.LinkCtx
+	kindOf := func(m message.Message) string {
+		switch m.(type) {
+		case *message.UpstreamOpenRequest:
+			return "uo"
+		case *message.UpstreamResumeRequest:
+			return "ur"
+		case *message.UpstreamCloseRequest:
+			return "uc"
+		case *message.UpstreamMetadata:
+			return "um"
+		case *message.DownstreamOpenRequest:
+			return "do"
+		case *message.DownstreamResumeRequest:
+			return "dr"
+		case *message.DownstreamCloseRequest:
+			return "dc"
+		}
+		return ""
+	}
+	victimArmed := true
+	w.B.OnMsg = func(lc *broker.LinkCtx, m message.Message, unrel bool) bool {
+		mu.Lock()
+		if victimArmed && kindOf(m) == kind && isVictim(m) {
+			victimArmed = false
+			withheld, withheldLC = m, lc
+			mu.Unlock()
+			return true
+		}
+		mu.Unlock()
+		return answer(lc, m, unrel)
+	}
+	w.Start()
+	rs.run()
+	defer func() { close(rs.stop); rs.wg.Wait() }()
+	encName := transport.EncodingNameProtobuf
+	if enc == "json" {
+		encName = transport.EncodingNameJSON
+	}
+	tr, err := w.Net.Dialer().Dial(transport.DialConfig{Address: w.Addr, EncodingName: encName})
+	if err != nil {
+		return vrun.Inconcl("dial: " + err.Error())
+	}
+	et := encoding.NewTransport(&encoding.TransportConfig{Transport: tr, Encoding: w.Net.Current().Encoding()})
+	cc, err := wire.Connect(&wire.ClientConnConfig{Transport: et, NodeID: "n", PingInterval: time.Hour, PingTimeout: 30 * time.Second})
+	if err != nil {
+		return vrun.Inconcl("wire.Connect: " + err.Error())
+	}
+	defer cc.Close()
+
+	type vres struct {
+		err error
+	}
+	vdone := make(chan vres, 1)
+	vctx, vcancel := context.WithTimeout(context.Background(), 20*time.Millisecond)
+	defer vcancel()
+	go func() {
+		_, _, _, err := issueKind(vctx, cc, kind, "victim", 9001)
+		vdone <- vres{err}
+	}()
+	// the other callers
+	var wg sync.WaitGroup
+	var bad *vrun.Result
+	allKinds := []string{"uo", "ur", "uc", "um", "do", "dr", "dc"}
+	for i := 0; i < others; i++ {
+		wg.Add(1)
+		go func(i int) {
+			defer wg.Done()
+			for k := 0; k < 3; k++ {
+				kd := allKinds[(i+k)%len(allKinds)]
+				tag := fmt.Sprintf("other-%d-%d", i, k)
+				alias := uint32(100 + i*10 + k)
+				ctx, cancel := context.WithTimeout(context.Background(), 30*time.Second)
+				reqID, respID, got, err := issueKind(ctx, cc, kd, tag, alias)
+				cancel()
+				mu.Lock()
+				if bad == nil {
+					if err != nil {
+						v := vrun.Violation("a caller failed while another caller's request was abandoned", "other-caller-failed:"+kd, map[string]any{"error": err.Error(), "abandoned_kind": kind})
+						bad = &v
+					} else if reqID != respID || got != wantTag(kd, tag, alias) {
+						v := vrun.Violation("a caller got a response that is not its own while another caller's request was abandoned", "foreign-response:"+kd, map[string]any{"request_id": reqID, "response_id": respID, "echo": got, "want": wantTag(kd, tag, alias)})
+						bad = &v
+					}
+				}
+				mu.Unlock()
+			}
+		}(i)
+	}
+	var vr vres
+	select {
+	case vr = <-vdone:
+	case <-time.After(10*time.Second + 20*time.Millisecond):
+		return vrun.Violation("a caller whose context had ended kept waiting for its response", "caller-ignores-its-context:"+kind, map[string]any{"context": "20ms", "waited": "10s", "stacks": head(vrun.AllStacks(), 5000)})
+	}
+	wg.Wait()
+	if bad != nil {
+		return *bad
+	}
+	mu.Lock()
+	wm, wlc := withheld, withheldLC
+	mu.Unlock()
+	if wm == nil {
+		return vrun.Inconcl("the victim's request never reached the broker")
+	}
+	if vr.err == nil {
+		return vrun.Violation("a request whose response the broker withheld returned successfully", "withheld-request-succeeded:"+kind, nil)
+	}
+	if !errors.Is(vr.err, context.DeadlineExceeded) && !errors.Is(vr.err, context.Canceled) {
+		return vrun.Violation("a caller whose context ended got an error other than its context's", "abandoned-wrong-error:"+kind, map[string]any{"error": vr.err.Error()})
+	}
+	// the late response, then the same kind again
+	answer(wlc, wm, false)
+	rs.flush()
+	time.Sleep(2 * time.Millisecond)
+	ctx, cancel := context.WithTimeout(context.Background(), 30*time.Second)
+	reqID, respID, got, err := issueKind(ctx, cc, kind, "second", 9002)
+	cancel()
+	if err != nil {
+		return vrun.Violation("the request after an abandoned one of the same kind failed", "after-abandoned-failed:"+kind, map[string]any{"error": err.Error()})
+	}
+	if reqID != respID || got != wantTag(kind, "second", 9002) {
+		return vrun.Violation("the request after an abandoned one received the late response of the abandoned request", "late-response-consumed:"+kind, map[string]any{"request_id": reqID, "response_id": respID, "echo": got})
+	}
+	res := vrun.Hold(fmt.Sprintf("%s|%s|%d", kind, enc, others), true)
+	res.Stat("abandoned_requests", 1)
+	return res
+}
+
+// isVictim recognises the victim's request by its body.
+func isVictim(m message.Message) bool {
+	switch t := m.(type) {
+	case *message.UpstreamOpenRequest:
+		return t.SessionID == "victim"
+	case *message.UpstreamResumeRequest:
+		return t.StreamID == tagUUID("victim")
+	case *message.UpstreamCloseRequest:
+		return t.StreamID == tagUUID("victim")
+	case *message.UpstreamMetadata:
+		bt, ok := t.Metadata.(*message.BaseTime)
+		return ok && bt.Name == "victim"
+	case *message.DownstreamOpenRequest:
+		return t.DesiredStreamIDAlias == 9001
+	case *message.DownstreamResumeRequest:
+		return t.StreamID == tagUUID("victim")
+	case *message.DownstreamCloseRequest:
+		return t.StreamID == tagUUID("victim")
+	}
+	return false
+}
+
+func head(s string, n int) string {
+	if len(s) > n {
+		return s[:n]
+	}
+	return s
+}
